@@ -8,7 +8,7 @@ EXPLANATION = ("For commits and tags: the in-memory decoder (commit::decode::com
                "TagRefIter::next_inner_) are reduced to the table {header keyword -> value-parser function} plus the set of shared gix_object::parse helpers they "
                "use; the two tables and helper sets must be equal, nobody re-implements a header parser privately, and the keywords, in the decoder's order, must "
                "be the order Commit(Ref)/Tag(Ref)::write_to emits them. Both commit decoders parse extra headers by the ordered choice `multi-line, else single-line` "
-               "(winnow alt in that order, or an explicit fallback on the failure edge). Byte-exact re-encoding and acceptance of everything git emits are not decided.")
+               "(winnow alt in that order, or an explicit fallback on the failure edge). In the tag message parser every alternative that can yield a signature consumes the newline the writer always emits before it. Byte-exact re-encoding and acceptance of everything git emits are not decided.")
 PAIRS = [("commit", r"^gix_object::commit::decode::commit$", r"^gix_object::commit::ref_iter::<impl gix_object::CommitRefIter<'a>>::next_inner_$",
           [r"^gix_object::commit::write::<impl gix_object::traits::WriteTo for gix_object::Commit>::write_to$", r"^gix_object::commit::write::<impl gix_object::traits::WriteTo for gix_object::CommitRef<'_>>::write_to$"],
           ["tree", "parent", "author", "committer", "encoding"]),
@@ -111,6 +111,7 @@ def extra_header_choice(db, chk, f, label):
 
 
 def run(db, chk):
+    tag_signature_separator_rule(db, chk)
     extra_header_choice(db, chk, db.one(r"^gix_object::commit::decode::commit$"), "commit decoder")
     extra_header_choice(db, chk, db.one(r"^gix_object::commit::ref_iter::<impl gix_object::CommitRefIter<.a>>::next_inner_$"), "CommitRefIter")
     for kind, dpat, ipat, wpats, spec in PAIRS:
@@ -142,3 +143,40 @@ def run(db, chk):
     # nobody else in gix_object re-implements header parsing: callers of parse::header_field are the four decoders' closures
     callers = sorted({re.sub(r"::\{closure#\d+\}.*$", "", f.name) for f in db.by_crate["gix_object"] for c in f.calls() if c.is_(r"^gix_object::parse::header_field$")})
     chk.ob("single-header-parser", "callers of parse::header_field", len(callers) == 4, str(callers), key="single-header-parser")
+
+
+def tag_signature_separator_rule(db, chk):
+    """the tag writer puts a newline between message and signature unconditionally; the reader has to ask for exactly that newline whenever it
+    recognises a signature, or a tag it decodes as (message, Some(signature)) is written back with one byte more (or less) than it had.  In
+    tag::decode::message every alternative handed to winnow's `alt` that can yield a signature (it refers to PGP_SIGNATURE_END, directly or through
+    a helper parser) also goes through `preceded(NL, ..)`; alternatives that cannot yield one are unconstrained."""
+    f = db.one(r"^gix_object::tag::decode::message$")
+    fl = Flow(f)
+    helpers = {g.name: g for g in db.by_crate["gix_object"] if g.kind != "promoted" and "::tag::decode::" in g.name}
+
+    def mentions(op):
+        r = fl.roots(op, stop_named=False)
+        sig = any(x[0] == "constdef" and x[1].endswith("PGP_SIGNATURE_END") for x in r)
+        pre = any(x[0] == "call" and x[1].endswith("::preceded") for x in r) and any(x[0] == "constdef" and x[1].endswith("::NL") for x in r)
+        for x in r:
+            if x[0] == "fnitem" and x[1] in helpers:
+                h = helpers[x[1]]
+                hfl = Flow(h)
+                if any(any(y[0] == "constdef" and y[1].endswith("PGP_SIGNATURE_END") for y in hfl.roots(a, stop_named=False)) for c in h.calls() for a in c.args if "p" in a) or \
+                        any("PGP_SIGNATURE_END" in str(rv) for bi, si, pl, rv, ln, mc in h.assigns()):
+                    sig = True
+        return sig, pre
+    n = 0
+    for c in f.calls_to(r"branch::alt$"):
+        l = c.args[0].get("p", [None])[0]
+        for bi, si, pl, rv, ln, mc in f.assigns():
+            if pl == [l] and rv[0] == "agg" and rv[1] == "tuple":
+                for i, op in enumerate(rv[4]):
+                    sig, pre = mentions(op)
+                    if not sig:
+                        continue
+                    n += 1
+                    chk.ob("tag-signature-follows-newline", "tag::decode::message alternative #%d" % i, pre,
+                           "this alternative recognises a signature without consuming the newline the writer always puts in front of it: such a tag is re-encoded one byte longer and gets a different id",
+                           "%s:%d" % (f.file, ln), key="tag-sig-separator|%d" % i)
+    chk.floor("tag message parser: alternatives that yield a signature", n, 1)
